@@ -11,7 +11,7 @@ SIM    the same module with -simulate prints command sequences of longer behavio
 TRACE  harness/utilasync_driver.py replays these TLC-generated behaviours (plus a few scripted ones) against the real
        classes on the virtual reactor; spec/util/TraceAsyncUtil compares what was observed during every command with
        what AsyncUtil.Steps allows and names the rule of AsyncUtilProps that the real history breaks."""
-import collections, json, os, re
+import collections, json, os, random, re
 
 KINDS = ["oneshot", "lazy", "obslist", "stream", "poll", "gather", "dlss", "race", "timeout", "hook", "until", "evchain",
          "consumer", "dictofsets", "auxdict", "typedkeys"]
@@ -30,19 +30,28 @@ def invariants():
     return names
 
 
-def cfg(kinds, scale, spec="Spec", printhist=False, simdepth=10, invs=()):
-    return ("SPECIFICATION %s\nCONSTANTS\n  Kinds = {%s}\n  Scale = %d\n  PrintHist = %s\n  SimDepth = %d\nCHECK_DEADLOCK FALSE\n"
-            % (spec, ", ".join('"%s"' % k for k in kinds), scale, "TRUE" if printhist else "FALSE", simdepth)
+def cfg(kinds, scale, spec="Spec", wide=False, printhist=False, simdepth=10, invs=()):
+    b = lambda x: "TRUE" if x else "FALSE"
+    return ("SPECIFICATION %s\nCONSTANTS\n  Kinds = {%s}\n  Scale = %d\n  Wide = %s\n  PrintHist = %s\n  SimDepth = %d\nCHECK_DEADLOCK FALSE\n"
+            % (spec, ", ".join('"%s"' % k for k in kinds), scale, b(wide), b(printhist), simdepth)
             + "".join("INVARIANT %s\n" % i for i in invs))
 
 
-def unset(v):
-    """TLC value as printed -> JSON-able command (sets do not occur in commands)"""
-    if isinstance(v, dict):
-        return dict((k, unset(x)) for k, x in v.items())
-    if isinstance(v, list):
-        return [unset(x) for x in v]
-    return v
+def histories(r, src, rnd, per_kind):
+    """the behaviours TLC printed (<<"VF_HIST", kind, commands as JSON>>), at most per_kind of every kind (seeded choice)"""
+    seen, by_kind = set(), collections.defaultdict(list)
+    for t in r.tuples("VF_HIST"):
+        k = t[1] + t[2]
+        if k not in seen and t[2] != "[]":
+            seen.add(k)
+            by_kind[t[1]].append(t[2])
+    out = []
+    for kind in sorted(by_kind):
+        hs = sorted(by_kind[kind])
+        if len(hs) > per_kind:
+            hs = rnd.sample(hs, per_kind)
+        out += [{"kind": kind, "cmds": json.loads(h), "src": src} for h in hs]
+    return out, dict((k, len(v)) for k, v in by_kind.items())
 
 
 def short(e):
@@ -92,38 +101,32 @@ def run(ctx):
     q = ctx.quick
     invs = invariants()
     # ---- design level --------------------------------------------------------------------------------------------
-    scale = 0 if q else 2
+    rnd = random.Random(ctx.seed)
+    scale = 0 if q else 1
     ctx.constants["MCAsyncUtil"] = {"Kinds": KINDS, "Scale": scale, "invariants": len(invs)}
-    ctx.mc("util/MCAsyncUtil", cfg(KINDS, scale, invs=invs + ([] if q else ["RuleListAgrees", "StepsTotal"])),
-           name="MC async utilities (depth base+%d)" % scale, timeout=3000, coverage=False)
+    r = ctx.mc("util/MCAsyncUtil", cfg(KINDS, scale, printhist=True, invs=invs + ["HistPrinted"] + ([] if q else ["RuleListAgrees", "StepsTotal"])),
+               name="MC async utilities (depth base+%d)" % scale, timeout=6000, coverage=False)
+    hists, n_mc = histories(r, "tlc-mc", rnd, 40 if q else 400)
     if not os.environ.get("VERIF_SKIP_MC"):
-        r = ctx.mc("util/MCAsyncUtil", cfg(["oneshot", "lazy", "auxdict"], 0 if q else 1, spec="SpecDev", invs=invs),
-                   name="MC necessity: deviations of the code as it is", expect_ok=False, timeout=3000, coverage=False, cont=True)
-        if not EXPECTED_DEVIATIONS <= set(r.violated):
+        rn = ctx.mc("util/MCAsyncUtil", cfg(["lazy", "auxdict"], 0 if q else 1, spec="SpecDev", invs=invs),
+                    name="MC necessity: deviations of the code as it is", expect_ok=False, timeout=3000, coverage=False, cont=True)
+        if not EXPECTED_DEVIATIONS <= set(rn.violated):
             ctx.report(key="spec:necessity_not_detected",
                        what="MCAsyncUtil with the listed deviations (watchers run inside fire(); del of a constructor key raises "
                             "KeyError) violates %s, expected %s: the rules do not separate the documented behaviour from the deviations"
-                            % (sorted(set(r.violated)), sorted(EXPECTED_DEVIATIONS)))
-        ctx.notes.append("necessity run: TLC reports %s" % sorted(set(r.violated)))
+                            % (sorted(set(rn.violated)), sorted(EXPECTED_DEVIATIONS)))
+        ctx.runs[-1]["violated"] = sorted(set(rn.violated))        # -continue names the same rule once per violating state
+        ctx.notes.append("necessity run: TLC reports %s" % sorted(set(rn.violated)))
 
-    # ---- behaviours generated by TLC -----------------------------------------------------------------------------
-    num, depth = (260, 9) if q else (4000, 14)
-    r = ctx.sim("util/MCAsyncUtil", cfg(KINDS, 0, printhist=True, simdepth=depth, invs=invs + ["HistPrinted"]), num, depth + 2,
-                name="SIM behaviours for the harness", workers=1, timeout=3000)
-    seen, hists = set(), []
-    for t in r.tuples("VF_HIST"):
-        cmds = unset(t[2])
-        k = json.dumps([t[1], cmds], sort_keys=True)
-        if k not in seen and cmds:
-            seen.add(k)
-            hists.append({"kind": t[1], "cmds": cmds})
-    hists.sort(key=lambda h: json.dumps(h, sort_keys=True))
-    limit = 900 if q else 12000
-    if len(hists) > limit:                      # deterministic thinning, keeps every kind
-        step = len(hists) / float(limit)
-        hists = [hists[int(i * step)] for i in range(limit)]
+    # ---- longer behaviours generated by TLC -simulate (wide alphabets) ----------------------------------------------
+    num, depth = (50, 9) if q else (1500, 14)
+    rs = ctx.sim("util/MCAsyncUtil", cfg(KINDS, 0, wide=True, printhist=True, simdepth=depth, invs=["HistPrinted"]), num, depth + 2,
+                 name="SIM behaviours for the harness", workers=4, timeout=6000)
+    hs2, n_sim = histories(rs, "tlc-sim", rnd, 25 if q else 400)
+    hists += hs2
+    ctx.notes.append("behaviours printed by TLC: exhaustive run %s, -simulate %s" % (dict(sorted(n_mc.items())), dict(sorted(n_sim.items()))))
     if len(hists) < 100:
-        raise RuntimeError("TLC -simulate printed only %d behaviours" % len(hists))
+        raise RuntimeError("TLC printed only %d behaviours" % len(hists))
 
     # ---- implementation level ------------------------------------------------------------------------------------
     out = ctx.impl("harness/utilasync_driver.py", [], input_obj={"histories": hists}, timeout=3000)
@@ -137,14 +140,15 @@ def run(ctx):
     ctx.sample({"kind": traces[0]["consts"]["kind"], "events": [short(e) for e in traces[0]["events"]]}, limit=2)
     ctx.notes.append("real executions: %d histories (%d scripted, %d TLC-generated), %d commands; per kind %s"
                      % (len(traces), sum(1 for t in traces if t["consts"]["src"] == "scripted"),
-                        sum(1 for t in traces if t["consts"]["src"] == "tlc"), steps, dict(sorted(per.items()))))
+                        sum(1 for t in traces if t["consts"]["src"] != "scripted"), steps, dict(sorted(per.items()))))
     ctx.trace("util/TraceAsyncUtil", traces, key_of=key_of, what_of=what_of, batch=1500, workers=4, timeout=3000)
     ctx.rule = ("MC: every behaviour of MCAsyncUtil up to the per-kind depth (quick: oneshot 5, lazy 4, obslist 4, stream 4, poll 3, "
                 "gather/dlss 5, race 4, timeout 6, hook 3, until 5, evchain 5, consumer 1, dictofsets 3, auxdict 3, typedkeys 3; thorough +2) "
-                "with the narrow command alphabets; the necessity run must break exactly the rules of the two listed deviations. "
-                "TRACE: command sequences printed by TLC -simulate (depth %d, wide alphabets, seed = --seed) over all 16 kinds plus %d "
-                "scripted histories, replayed on the real classes. Non-trivial: something was delivered, completed or refused "
-                "(not only pending observations)." % (depth, 23))
+                "with the narrow command alphabets; the necessity run must break the rules of the two listed deviations. "
+                "TRACE: a seeded sample (<= %d per kind) of the maximal behaviours of that exhaustive run, a seeded sample (<= %d per kind) of "
+                "the behaviours printed by TLC -simulate (depth %d, wide alphabets, -seed = --seed), and the scripted histories of the "
+                "driver, replayed on the real classes. Non-trivial: something was delivered, completed or refused (not only pending "
+                "observations)." % (40 if q else 400, 25 if q else 400, depth))
     ctx.assumptions += [
         "TLC and the CommunityModules",
         "harness: virtual reactor (foolscap eventually() and LoopingCall run on it); util/pollmixin.py's time.time is rebound to the "
